@@ -313,3 +313,62 @@ def executed_positions(spec, crop_len, nseasons, pre):
         off = (p - s).days
         pos.extend(range(off, off + crop_len + 1))
     return pos
+
+
+# ---------------------------------------------------------------------------------------------
+# catalogue (full-length) scenarios
+# ---------------------------------------------------------------------------------------------
+def catalogue_names():
+    from aquacrop.entities.crops.crop_params import crop_params
+
+    return list(crop_params.keys())
+
+
+def calendar_crop_names():
+    from aquacrop.entities.crops.crop_params import crop_params
+
+    return [k for k, v in crop_params.items() if v["CalendarType"] == 1]
+
+
+def thermal_crop_names():
+    from aquacrop.entities.crops.crop_params import crop_params
+
+    return [k for k, v in crop_params.items() if v["CalendarType"] == 2]
+
+
+def catalogue_spec(name, word="warm", soil="SandyLoam", irr="none", gw="none", iwc="FC", field="none", dz="d12",
+                   planting="05/01", start="2001/05/01", end="2002/04/20", off=False, dev=None, frm=None, cropkw=None,
+                   scale=None, soilkw=None, co2=None):
+    crop = {"name": name, "planting": planting, "harvest": None, "scale": scale, "kw": dict(cropkw or {})}
+    s = copy.deepcopy(SOILS[soil])
+    s["dz"] = DZ[dz]
+    s["kw"] = dict(soilkw or {})
+    if s["type"] == "ac_TunisLocal":
+        s["dz"] = None
+    mm, dd = (int(x) for x in planting.split("/"))
+    y0 = _d(start).year
+    p0 = _dt.datetime(y0, mm, dd)
+    if p0 < _d(start):
+        p0 = _dt.datetime(y0 + 1, mm, dd)
+    pds = [_dt.datetime(p0.year + i, mm, dd) for i in range(0, max(1, _d(end).year - p0.year + 1))]
+    try:
+        L = crop_length_days(crop)
+    except Exception:  # noqa: BLE001
+        L = 140
+    wx = {"kind": "word", "word": word, "dev": [list(x) for x in (dev or [])], "lead": 0, "trail": 0}
+    if frm:
+        wx["from"] = list(frm)
+    return {
+        "crop": crop,
+        "soil": s,
+        "iwc": S.iwc_for(s, iwc),
+        "irr": resolve_irr(IRR[irr], pds, L),
+        "field": copy.deepcopy(FIELD[field]),
+        "fallow": None,
+        "gw": resolve_gw(GW[gw], start),
+        "co2": co2,
+        "start": start,
+        "end": end,
+        "off_season": bool(off),
+        "weather": wx,
+    }
